@@ -1122,6 +1122,8 @@ package main
 //@ func rewriteTag(orig string, countryCode string, withLogin bool) (res string)
 //@   modifies inferred
 //@   assert at call PreCheck [C19] only_validators_that_index: conf.addToTags
+// (every authenticator name the store lists - logical names included - resolves to a handler before it is used)
+//@   assert at call AsTag [C13,C19] authenticator_exists: $0 != nil
 
 // C03: suspending (or re-activating) an account makes exactly its topics read-only (or writable again): every p2p
 // topic the user takes part in and every group topic the user owns. The body of the walk over the loaded topics, as a
